@@ -351,6 +351,10 @@ type ruleDef struct {
 	Content []*ruleDef `json:"content,omitempty"`
 
 	end *snode // schema node at the end of the (absolute) storage path; nil = unconstrained
+
+	group int      // > 0: member of that nested group (genNestedGroup)
+	gplen int      // length of the group's shared request prefix
+	gfree []string // literal keys the group's storage paths have where any key may stand
 }
 
 func (rd *ruleDef) toMap() map[string]interface{} {
@@ -527,6 +531,10 @@ type flatRule struct {
 	Sto    []string `json:"sto"`
 	Access string   `json:"access"`
 	end    *snode
+
+	group int
+	gplen int
+	gfree []string
 }
 
 func flatten(rules []*ruleDef, preq, psto []string) []flatRule {
@@ -541,6 +549,9 @@ func flatten(rules []*ruleDef, preq, psto []string) []flatRule {
 			Sto:    append(append([]string(nil), psto...), strings.Split(rd.Storage, ".")...),
 			Access: rd.Access,
 			end:    rd.end,
+			group:  rd.group,
+			gplen:  rd.gplen,
+			gfree:  rd.gfree,
 		}
 		if fr.Access == "" {
 			fr.Access = "read-write"
@@ -639,17 +650,36 @@ func splitReq(req string) []string {
 
 // nest wraps a leaf value in the maps that the unmatched request suffix asks for.
 func nest(r *rand.Rand, suffix []string, leaf func() interface{}) interface{} {
+	return nestK(r, suffix, leaf, nil)
+}
+
+// nestK is nest with the keys standing for open placeholders drawn from keys
+// (each with probability 3/5, at least one); keys == nil: 1-2 keys of keyPool.
+func nestK(r *rand.Rand, suffix []string, leaf func() interface{}, keys []string) interface{} {
 	if len(suffix) == 0 {
 		return leaf()
 	}
 	if isPH(suffix[0]) {
 		m := map[string]interface{}{}
-		for _, k := range pickN(r, keyPool, 1+r.Intn(2)) {
-			m[k] = nest(r, suffix[1:], leaf)
+		var ks []string
+		if keys == nil {
+			ks = pickN(r, keyPool, 1+r.Intn(2))
+		} else {
+			for _, k := range keys {
+				if r.Intn(5) < 3 {
+					ks = append(ks, k)
+				}
+			}
+			if len(ks) == 0 {
+				ks = []string{keys[r.Intn(len(keys))]}
+			}
+		}
+		for _, k := range ks {
+			m[k] = nestK(r, suffix[1:], leaf, keys)
 		}
 		return m
 	}
-	return map[string]interface{}{suffix[0]: nest(r, suffix[1:], leaf)}
+	return map[string]interface{}{suffix[0]: nestK(r, suffix[1:], leaf, keys)}
 }
 
 func mergeVal(a, b interface{}) interface{} {
@@ -675,21 +705,41 @@ type opGen struct {
 	focus  []int
 	keys   []string
 	recent []string // requests of earlier sets (reads go back to them)
+	groups []groupInfo
+}
+
+// forcedOp pins the rule, the request length and the kind of a generated request.
+type forcedOp struct {
+	fr   flatRule
+	n    int
+	kind string   // set | unset | get
+	keys []string // keys for placeholders (bound in the request and open in the value)
 }
 
 func genOp(r *rand.Rand, g *opGen, reg, slot int) opDef {
+	return genOpF(r, g, reg, slot, nil)
+}
+
+func genOpF(r *rand.Rand, g *opGen, reg, slot int, forced *forcedOp) opDef {
 	flat := g.flat
-	fr := flat[r.Intn(len(flat))]
-	if r.Intn(10) < 6 {
-		fr = flat[g.focus[r.Intn(len(g.focus))]]
-	}
-	keys := g.keys
-	if r.Intn(5) == 0 {
-		keys = keyPool
-	}
-	n := len(fr.Req)
-	if r.Intn(10) >= 6 {
-		n = 1 + r.Intn(len(fr.Req))
+	var fr flatRule
+	var keys, vkeys []string
+	var n int
+	if forced != nil {
+		fr, keys, vkeys, n = forced.fr, g.keys, forced.keys, forced.n
+	} else {
+		fr = flat[r.Intn(len(flat))]
+		if r.Intn(10) < 6 {
+			fr = flat[g.focus[r.Intn(len(g.focus))]]
+		}
+		keys = g.keys
+		if r.Intn(5) == 0 {
+			keys = keyPool
+		}
+		n = len(fr.Req)
+		if r.Intn(10) >= 6 {
+			n = 1 + r.Intn(len(fr.Req))
+		}
 	}
 	req := make([]string, n)
 	for i := 0; i < n; i++ {
@@ -700,9 +750,17 @@ func genOp(r *rand.Rand, g *opGen, reg, slot int) opDef {
 		}
 	}
 	op := opDef{Reg: reg, Slot: slot, Req: strings.Join(req, ".")}
-	switch x := r.Intn(100); {
+	x := r.Intn(100)
+	if forced != nil {
+		x = map[string]int{"get": 0, "unset": 30, "set": 99}[forced.kind]
+	}
+	switch {
 	case x < 30:
 		op.Kind = "get"
+		if forced != nil {
+			op.Class = "get"
+			return op
+		}
 		if len(g.recent) > 0 && r.Intn(2) == 0 {
 			op.Req = g.recent[r.Intn(len(g.recent))]
 			if cut := strings.LastIndex(op.Req, "."); cut > 0 && r.Intn(4) == 0 {
@@ -720,6 +778,9 @@ func genOp(r *rand.Rand, g *opGen, reg, slot int) opDef {
 	case x < 45:
 		op.Kind = "unset"
 		op.Class = "unset"
+		if forced != nil {
+			return op
+		}
 		if r.Intn(8) == 0 {
 			op.Req, op.Class = mutateRequest(r, op.Req), "unset-bad-request"
 		}
@@ -727,6 +788,9 @@ func genOp(r *rand.Rand, g *opGen, reg, slot int) opDef {
 	}
 	op.Kind = "set"
 	op.Class = "set-good"
+	if forced != nil && n < len(fr.Req) {
+		op.Class = "set-group-prefix"
+	}
 	// value: what every writeable rule matching the request needs, merged
 	var val interface{}
 	matched := false
@@ -739,7 +803,7 @@ func genOp(r *rand.Rand, g *opGen, reg, slot int) opDef {
 		}
 		matched = true
 		g := g
-		v := nest(r, g.Req[len(req):], func() interface{} { return goodValue(r, g.end) })
+		v := nestK(r, g.Req[len(req):], func() interface{} { return goodValue(r, g.end) }, vkeys)
 		if val == nil {
 			val = v
 		} else {
@@ -750,7 +814,11 @@ func genOp(r *rand.Rand, g *opGen, reg, slot int) opDef {
 		val = anyValue(r, 0)
 	}
 	op.Val = val
-	if r.Intn(100) >= 40 {
+	mutated := 40
+	if forced != nil {
+		mutated = 15
+	}
+	if r.Intn(100) >= mutated {
 		g.recent = append(g.recent, op.Req)
 		return op
 	}
@@ -842,4 +910,422 @@ func mustJSON(v interface{}) []byte {
 		panic(err)
 	}
 	return b
+}
+
+// ---------------------------------------------------------------------------
+// nested groups: several rules sharing a request prefix whose storage paths
+// are nested in / overlap each other, in an order that has nothing to do with
+// the order of their requests (neither lexicographically nor by nesting)
+
+var (
+	groupHeads = []string{"net", "cfg", "sys", "hw"}
+	groupNames = []string{"alpha", "b", "m-1", "psk", "settings", "zeta", "q9", "k", "aa", "w-w", "cc", "o"}
+)
+
+type gpart struct {
+	s    string
+	free bool // any key may stand here (any-key map, below "any", no schema)
+}
+
+// gnode is a storage path under construction and the schema node at its end
+// (open: anything may be stored below).
+type gnode struct {
+	parts []gpart
+	node  *snode
+	open  bool
+}
+
+func (g gnode) extendable() bool {
+	if g.open {
+		return true
+	}
+	return g.node != nil && (g.node.Kind == "fixed" || g.node.Kind == "values" || g.node.Kind == "any")
+}
+
+func (g gnode) storage() []string {
+	out := make([]string, len(g.parts))
+	for i, p := range g.parts {
+		out[i] = p.s
+	}
+	return out
+}
+
+func groupStep(r *rand.Rand, cur gnode, phName func() string) (gnode, bool) {
+	next := gnode{parts: append([]gpart(nil), cur.parts...)}
+	freeStep := func() {
+		switch x := r.Intn(10); {
+		case x < 4:
+			next.parts = append(next.parts, gpart{phName(), true})
+		case x < 8:
+			next.parts = append(next.parts, gpart{keyPool[r.Intn(len(keyPool))], true})
+		default:
+			next.parts = append(next.parts, gpart{innerKeys[r.Intn(len(innerKeys))], true})
+		}
+	}
+	if cur.open || (cur.node != nil && cur.node.Kind == "any") {
+		freeStep()
+		next.open = true
+		return next, true
+	}
+	if cur.node == nil {
+		return cur, false
+	}
+	switch cur.node.Kind {
+	case "fixed":
+		k := cur.node.Keys[r.Intn(len(cur.node.Keys))]
+		next.parts = append(next.parts, gpart{k, false})
+		next.node = cur.node.Kids[k]
+	case "values":
+		if r.Intn(2) == 0 {
+			next.parts = append(next.parts, gpart{phName(), true})
+		} else {
+			next.parts = append(next.parts, gpart{keyPool[r.Intn(len(keyPool))], true})
+		}
+		next.node = cur.node.Elem
+	default:
+		return cur, false
+	}
+	return next, true
+}
+
+// genNestedGroup returns 2-4 top-level rules with requests head[.lit][.{shared
+// placeholders}].<name_i>[...] (distinct names in random order, placeholders
+// introduced below the group's base storage path stay open when the prefix is
+// requested) and storage paths that extend each other: every member's storage
+// starts from the storage of an earlier member (or a variant of it in which a
+// free position holds another placeholder name or a literal key instead) and
+// goes 1-2 levels deeper. nil when the schema offers no nesting.
+func genNestedGroup(r *rand.Rand, schema *snode, gid int, head string) []*ruleDef {
+	usedPH := map[string]bool{}
+	phName := func() string {
+		for {
+			n := fmt.Sprintf("{g%c%c}", 'a'+r.Intn(26), 'a'+r.Intn(26))
+			if !usedPH[n] {
+				usedPH[n] = true
+				return n
+			}
+		}
+	}
+	root := gnode{node: schema, open: schema == nil}
+	var base gnode
+	found := false
+	for try := 0; try < 8 && !found; try++ {
+		cur := root
+		for i, steps := 0, 1+r.Intn(2); i < steps; i++ {
+			next, ok := groupStep(r, cur, phName)
+			if !ok || !next.extendable() {
+				break
+			}
+			cur = next
+		}
+		if len(cur.parts) >= 1 && cur.extendable() {
+			base, found = cur, true
+		}
+	}
+	if !found {
+		return nil
+	}
+	baseLen := len(base.parts)
+	members := []gnode{base}
+	want := 2 + r.Intn(3)
+	for try := 0; try < 16 && len(members) < want; try++ {
+		parent := members[r.Intn(len(members))]
+		if !parent.extendable() {
+			continue
+		}
+		child := gnode{parts: append([]gpart(nil), parent.parts...), node: parent.node, open: parent.open}
+		for i := baseLen; i < len(child.parts); i++ {
+			if !child.parts[i].free {
+				continue
+			}
+			switch r.Intn(4) {
+			case 0:
+				child.parts[i].s = phName()
+			case 1:
+				child.parts[i].s = keyPool[r.Intn(len(keyPool))]
+			}
+		}
+		ok := false
+		for i, steps := 0, 1+r.Intn(2); i < steps; i++ {
+			next, stepped := groupStep(r, child, phName)
+			if !stepped {
+				break
+			}
+			child, ok = next, true
+		}
+		if ok {
+			members = append(members, child)
+		}
+	}
+	if len(members) < 2 {
+		return nil
+	}
+	if len(members) >= 3 && r.Intn(5) == 0 {
+		members = members[1:] // the group's base path itself is not mapped
+	}
+	// shared request prefix
+	prefix := []string{head}
+	if r.Intn(4) == 0 {
+		prefix = append(prefix, reqAlpha[r.Intn(len(reqAlpha))])
+	}
+	var shared []string
+	for _, p := range base.parts {
+		if isPH(p.s) {
+			shared = append(shared, p.s)
+		}
+	}
+	r.Shuffle(len(shared), func(i, j int) { shared[i], shared[j] = shared[j], shared[i] })
+	prefix = append(prefix, shared...)
+	// literal keys at free positions (values written through a placeholder
+	// of a sibling should use them too)
+	var gfree []string
+	seen := map[string]bool{}
+	for _, m := range members {
+		for _, p := range m.parts[baseLen:] {
+			if p.free && !isPH(p.s) && !seen[p.s] {
+				seen[p.s] = true
+				gfree = append(gfree, p.s)
+			}
+		}
+	}
+	names := append([]string(nil), groupNames...)
+	r.Shuffle(len(names), func(i, j int) { names[i], names[j] = names[j], names[i] })
+	odd := -1
+	if r.Intn(5) == 0 {
+		odd = r.Intn(len(members))
+	}
+	var out []*ruleDef
+	for i, m := range members {
+		var phs []string
+		for _, p := range m.parts[baseLen:] {
+			if isPH(p.s) {
+				phs = append(phs, p.s)
+			}
+		}
+		if len(phs) >= 2 && r.Intn(6) == 0 {
+			r.Shuffle(len(phs), func(a, b int) { phs[a], phs[b] = phs[b], phs[a] })
+		}
+		req := append([]string(nil), prefix...)
+		req = append(req, names[i])
+		switch r.Intn(4) {
+		case 0:
+			req = append(req, phs...)
+			req = append(req, reqAlpha[r.Intn(len(reqAlpha))])
+		case 1:
+			req = append(req, reqAlpha[r.Intn(len(reqAlpha))])
+			req = append(req, phs...)
+		default:
+			req = append(req, phs...)
+		}
+		rd := &ruleDef{
+			Request: strings.Join(req, "."),
+			Storage: strings.Join(m.storage(), "."),
+			end:     m.node,
+			group:   gid,
+			gplen:   len(prefix),
+			gfree:   gfree,
+		}
+		if r.Intn(2) == 0 {
+			rd.Access = "read-write"
+		}
+		if i == odd {
+			rd.Access = genAccess(r)
+		}
+		out = append(out, rd)
+	}
+	r.Shuffle(len(out), func(i, j int) { out[i], out[j] = out[j], out[i] })
+	return out
+}
+
+// genViewNested: a generated view plus 1-2 nested groups; nil when no group
+// could be built over the schema.
+func genViewNested(r *rand.Rand, schema *snode) *viewDef {
+	vd := genView(r, schema)
+	if r.Intn(2) == 0 && len(vd.Rules) > 3 {
+		vd.Rules = vd.Rules[:3]
+	}
+	heads := pickN(r, groupHeads, 1+r.Intn(2))
+	ngroups := 0
+	for i, h := range heads {
+		g := genNestedGroup(r, schema, i+1, h)
+		if g == nil {
+			continue
+		}
+		ngroups++
+		vd.Rules = append(vd.Rules, g...)
+	}
+	if ngroups == 0 {
+		return nil
+	}
+	if r.Intn(2) == 0 {
+		r.Shuffle(len(vd.Rules), func(i, j int) { vd.Rules[i], vd.Rules[j] = vd.Rules[j], vd.Rules[i] })
+	}
+	return vd
+}
+
+type groupInfo struct {
+	id    int
+	plen  int
+	rules []int // indexes into the flat rules
+	keys  []string
+}
+
+func findGroups(flat []flatRule, keys []string) []groupInfo {
+	byID := map[int]*groupInfo{}
+	var ids []int
+	for i, fr := range flat {
+		if fr.group == 0 {
+			continue
+		}
+		gi := byID[fr.group]
+		if gi == nil {
+			gi = &groupInfo{id: fr.group, plen: fr.gplen}
+			seen := map[string]bool{}
+			for _, k := range append(append([]string(nil), fr.gfree...), keys...) {
+				if !seen[k] {
+					seen[k] = true
+					gi.keys = append(gi.keys, k)
+				}
+			}
+			byID[fr.group] = gi
+			ids = append(ids, fr.group)
+		}
+		gi.rules = append(gi.rules, i)
+	}
+	sort.Ints(ids)
+	var out []groupInfo
+	for _, id := range ids {
+		out = append(out, *byID[id])
+	}
+	return out
+}
+
+// refWrite is one storage write that, by the reference, an accepted Set issues.
+type refWrite struct {
+	Rule int               `json:"rule"` // index into the flat rules
+	Path []string          `json:"path"`
+	Val  interface{}       `json:"value"`
+	Bind map[string]string `json:"-"`
+}
+
+func expandInto(out *[]refWrite, idx int, fr flatRule, bind map[string]string, suffix []string, val interface{}) bool {
+	if len(suffix) == 0 {
+		path := make([]string, len(fr.Sto))
+		for i, t := range fr.Sto {
+			path[i] = t
+			if isPH(t) {
+				b, ok := bind[t]
+				if !ok {
+					return false
+				}
+				path[i] = b
+			}
+		}
+		b := map[string]string{}
+		for k, v := range bind {
+			b[k] = v
+		}
+		*out = append(*out, refWrite{Rule: idx, Path: path, Val: val, Bind: b})
+		return true
+	}
+	m, ok := val.(map[string]interface{})
+	if !ok {
+		return false
+	}
+	if !isPH(suffix[0]) {
+		v, ok := m[suffix[0]]
+		if !ok {
+			return false
+		}
+		return expandInto(out, idx, fr, bind, suffix[1:], v)
+	}
+	for _, k := range sortedKeys(m) {
+		bind[suffix[0]] = k
+		if !expandInto(out, idx, fr, bind, suffix[1:], m[k]) {
+			return false
+		}
+	}
+	delete(bind, suffix[0])
+	return true
+}
+
+// refExpand: the storage writes of Set(req, val) by the reference: for every
+// writeable rule matching req the value found by walking the unmatched rest of
+// the rule's request through val (an open placeholder stands for every key of
+// the map at that level), at the rule's storage path with all placeholders
+// substituted. ok=false when val does not have the shape some rule asks for.
+func refExpand(flat []flatRule, req []string, val interface{}) ([]refWrite, bool) {
+	var out []refWrite
+	for i, fr := range flat {
+		bind, ok := refMatch(fr, req)
+		if !ok || !fr.writeable() {
+			continue
+		}
+		if !expandInto(&out, i, fr, bind, fr.Req[len(req):], val) {
+			return nil, false
+		}
+	}
+	return out, true
+}
+
+// fullRequest: the rule's request with the write's bindings substituted.
+func fullRequest(fr flatRule, bind map[string]string) string {
+	parts := make([]string, len(fr.Req))
+	for i, s := range fr.Req {
+		parts[i] = s
+		if b, ok := bind[s]; ok && isPH(s) {
+			parts[i] = b
+		}
+	}
+	return strings.Join(parts, ".")
+}
+
+// genGroupOps: requests aimed at a nested group: a Set on the shared prefix
+// with a map value carrying the sub-keys of all members followed by Gets of
+// sub-requests and of the prefix, or a Set/Unset/Get of one member or prefix.
+func genGroupOps(r *rand.Rand, g *opGen, reg, slot int) []opDef {
+	grp := g.groups[r.Intn(len(g.groups))]
+	fr := g.flat[grp.rules[r.Intn(len(grp.rules))]]
+	f := &forcedOp{fr: fr, n: grp.plen, kind: "set", keys: grp.keys}
+	switch x := r.Intn(20); {
+	case x < 13:
+	case x < 15:
+		f.n = len(fr.Req)
+	case x == 15:
+		f.n = grp.plen + r.Intn(len(fr.Req)-grp.plen+1)
+	case x == 16:
+		f.kind = "unset"
+		if r.Intn(2) == 0 {
+			f.n = len(fr.Req)
+		}
+	case x == 17:
+		f.kind = "unset"
+	default:
+		f.kind = "get"
+		if r.Intn(2) == 0 {
+			f.n = len(fr.Req)
+		}
+	}
+	op := genOpF(r, g, reg, slot, f)
+	ops := []opDef{op}
+	if op.Kind != "set" {
+		return ops
+	}
+	// reads of what the Set wrote: sub-requests of the members and the prefix
+	var subs []string
+	if ws, ok := refExpand(g.flat, splitReq(op.Req), op.Val); ok {
+		seen := map[string]bool{}
+		for _, w := range ws {
+			q := fullRequest(g.flat[w.Rule], w.Bind)
+			if !seen[q] {
+				seen[q] = true
+				subs = append(subs, q)
+			}
+		}
+	}
+	subs = append(subs, op.Req)
+	for i, n := 0, r.Intn(3); i < n; i++ {
+		ops = append(ops, opDef{Kind: "get", Class: "get", Reg: reg, Slot: slot, Req: subs[r.Intn(len(subs))]})
+	}
+	return ops
 }
